@@ -636,6 +636,156 @@ def wire_validity_scenario(ctx):
         p.stop()
 
 
+class _Peer:
+    """a subscription object as the manager sees it (duck-typed like FakeSubscriber); `fails_with` = exception factory"""
+    is_valid = True
+
+    def __init__(self, name, fails_with=None):
+        self.name, self.fails_with = name, fails_with
+        self.notify_to_address = f'http://127.0.0.1:1/{name}'
+        self.received = []
+
+    def send_notification_report(self, body_node, action):
+        if self.fails_with is not None:
+            raise self.fails_with()
+        self.received.append((action.rsplit('/', 1)[-1], int(body_node.get('MdibVersion', '0'))))
+
+    async def async_send_notification_report(self, body_node, action):
+        self.send_notification_report(body_node, action)
+
+    def __repr__(self):
+        return f'_Peer({self.name})'
+
+
+def peer_failures():
+    """what a misbehaving / unreachable subscriber makes the real subscription object raise (decided by the real soap
+    clients: transport errors are mapped to NotConnected, error status to HTTPReturnCodeError, an answer that is not xml to
+    XMLSyntaxError; connect errors come through as they are)"""
+    import http.client
+
+    from lxml import etree
+    from sdc11073.pysoap.soapclient import HTTPReturnCodeError
+
+    def garbage():
+        try:
+            etree.fromstring(b'OK')
+        except etree.XMLSyntaxError as ex:
+            return ex
+        return etree.XMLSyntaxError('verif', 1, 1, 1)
+    return [('connection-refused', lambda: ConnectionRefusedError('verif: refused')),
+            ('not-connected', lambda: http.client.NotConnected()),
+            ('time-out', lambda: TimeoutError('verif: timed out')),
+            ('http-error-status', lambda: HTTPReturnCodeError(500, 'verif: internal error', None)),
+            ('answer-not-xml', garbage)]
+
+
+def peer_failure_isolation(ctx, sync):
+    """One subscriber is unreachable / answers nonsense: that is its problem. The commit must not raise for it, and every
+    other subscriber still receives all reports of the commit (each kind, the committed MdibVersion), bad peer first or last."""
+    for label, mk_exc in peer_failures():
+        for bad_first in (True, False):
+            p = lb.Provider(mdib_path=c02.MDIBS[0], start=True, role_providers=False, sync=sync)
+            try:
+                bad, good = _Peer('bad', mk_exc), _Peer('good')
+                peers = [bad, good] if bad_first else [good, bad]
+                for mgr in p.device._subscriptions_managers.values():  # noqa: SLF001
+                    mgr._get_subscriptions_for_action = lambda action, _p=peers: list(_p)  # noqa: SLF001
+                w = tx.World(p, ctx.subrng('peer', label))
+                m = p.mdib
+                v0 = m.mdib_version
+                raised = []
+
+                def commit(kind, handle):
+                    try:
+                        if kind == 'descriptor':
+                            with m.descriptor_transaction() as mgr:
+                                w.mutate_descr(mgr.get_descriptor(handle), 5)
+                        else:
+                            with getattr(m, f'{kind}_state_transaction')() as mgr:
+                                w.mutate_state(mgr.get_state(handle), 5)
+                    except Exception as ex:  # noqa: BLE001
+                        raised.append(f'{kind}: {type(ex).__name__}')
+                hm, ha = w.states_of_kind('metric')[0], w.states_of_kind('alert')[0]
+                commit('metric', hm)
+                commit('alert', ha)
+                commit('descriptor', hm)
+                import time as _t
+                t0 = _t.time()
+                want = ['EpisodicMetricReport', 'EpisodicAlertReport', 'DescriptionModificationReport', 'EpisodicMetricReport']
+                while len(good.received) < len(want) and _t.time() - t0 < 3:
+                    _t.sleep(0.02)
+                got = [a for a, _ in good.received]
+                case = {'peer_failure': label, 'bad_peer_first': bad_first, 'sync': sync, 'healthy_subscriber_received': good.received}
+                if raised:
+                    ctx.fail('commit-raised-for-one-bad-subscriber', f'{label}: {raised}', case)
+                if m.mdib_version == v0 + 3 and sorted(got) != sorted(want):
+                    ctx.fail('healthy-subscriber-missed-report',
+                             f'one subscriber fails with {label}; the other one received {got} instead of {want}', case)
+                if [v for _, v in good.received] != sorted(v for _, v in good.received):
+                    ctx.fail('reports-out-of-version-order', str(good.received), case)
+                ctx.case(case, nontrivial=True)
+                ctx.count('peer-failure-runs')
+                w.close()
+            finally:
+                p.stop()
+
+
+def filter_forms_scenario(ctx):
+    """The wse:Filter of a Subscribe is an xs:list of action URIs: any white space separates them. A real consumer subscribes
+    over HTTP with its filter written with newlines / tabs / several blanks; after that every report kind of committed
+    transactions has to reach it."""
+    import sdc11073.pysoap.soapclient as sc
+    from sdc11073.consumer.consumerimpl import SdcConsumer
+    forms = [('tab', '\t'), ('newline', '\n'), ('newline-indent', '\n      '), ('crlf', '\r\n')]
+    orig_set = SdcConsumer.do_subscribe
+    orig_send = sc.SoapClient._send_soap_request  # noqa: SLF001
+    for name, sep in forms[:ctx.n(2, 4)]:
+        p = lb.Provider(mdib_path=c02.MDIBS[1], start=True, role_providers=False, sync=True)
+        sent = []
+
+        def do_subscribe(self, dpws_hosted, filter_type, *a, _sep=sep, **k):
+            filter_type.text = _sep + _sep.join(filter_type.text.split()) + _sep
+            return orig_set(self, dpws_hosted, filter_type, *a, **k)
+
+        def spy(self, path, xml, log_msg):
+            sent.append(xml)
+            return orig_send(self, path, xml, log_msg)
+        SdcConsumer.do_subscribe = do_subscribe
+        sc.SoapClient._send_soap_request = spy  # noqa: SLF001
+        cons = None
+        try:
+            cons = lb.Consumer(p, init_mdib=False, subscribe_reports=True)
+            SdcConsumer.do_subscribe = orig_set
+            del sent[:]
+            m = p.mdib
+            w = tx.World(p, ctx.subrng('filterforms', name))
+            with m.metric_state_transaction() as mgr:
+                w.mutate_state(mgr.get_state(w.states_of_kind('metric')[0]), 3)
+            with m.alert_state_transaction() as mgr:
+                w.mutate_state(mgr.get_state(w.states_of_kind('alert')[0]), 3)
+            with m.context_state_transaction() as mgr:
+                mgr.mk_context_state('PC.mds0', 'ff_patient', set_associated=False)
+            with m.descriptor_transaction() as mgr:
+                w.mutate_descr(mgr.get_descriptor(w.states_of_kind('metric')[1]), 3)
+            w.close()
+            import time as _t
+            _t.sleep(0.3)
+            want = ['EpisodicMetricReport', 'EpisodicAlertReport', 'EpisodicContextReport', 'DescriptionModificationReport']
+            got = [a for a in want if any(('/' + a).encode() in x for x in sent)]
+            case = {'filter_form': name, 'reports_received': got}
+            if got != want:
+                ctx.fail('subscriber-missed-report',
+                         f'subscription with a {name}-separated filter list received {got}, committed transactions produced {want}', case)
+            ctx.case(case, nontrivial=True)
+            ctx.count('filter-form-runs')
+        finally:
+            SdcConsumer.do_subscribe = orig_set
+            sc.SoapClient._send_soap_request = orig_send  # noqa: SLF001
+            if cons is not None:
+                cons.stop()
+            p.stop()
+
+
 def prog_to_lean(name, log):
     acts = []
     for ev, arg in log:
@@ -742,6 +892,9 @@ def run(ctx):
             slow_subscriber_order(ctx, sync)
     periodic_forced(ctx)
     wire_validity_scenario(ctx)
+    for sync in (True, False):
+        peer_failure_isolation(ctx, sync)
+    filter_forms_scenario(ctx)
 
 
 def search(ctx):
@@ -757,6 +910,11 @@ def replay(ctx, obj):
     ctx2 = core.Ctx('C04', 'quick', 0)
     if 'wire_validity' in case:
         wire_validity_scenario(ctx2)
+    elif 'peer_failure' in case:
+        peer_failure_isolation(ctx2, case['sync'])
+    elif 'filter_form' in case:
+        ctx2.tier = 'thorough'
+        filter_forms_scenario(ctx2)
     elif 'periodic_forced' in case:
         periodic_forced(ctx2)
     elif 'slow_subscriber' in case:
